@@ -39,6 +39,14 @@ class _Abort(BaseException):
     """Raised to leave a path without a verdict (infeasible assumption)."""
 
 
+class _AbortBound(_Abort):
+    """Path left because an unbounded symbolic int had to be concretised (hash/index) and its value lies
+    outside the small window that is enumerated; the case is then reported as not exhaustive."""
+
+
+UNBOUNDED_WINDOW = (0, 1, -1, 2, -2)
+
+
 CTX: Optional["Ctx"] = None
 
 
@@ -477,8 +485,18 @@ class Ctx(BaseCtx):
         if z3.is_int_value(t):
             return t.as_long()
         lo, hi = x.lo, x.hi
+        if self.pin is not None:
+            if self.model is None:
+                self._check()
+                self.model = self.solver.model()
+            return self.model.eval(x.t, model_completion=True).as_long()
         if lo is None or hi is None:
-            raise SymxError("concretisation of an unbounded symbolic int (hash/index/int)")
+            # code under test hashes / indexes with an unbounded value: enumerate a small window exhaustively
+            # and leave the rest of the value space unexplored (reported as non-exhaustive, never as success)
+            for v in UNBOUNDED_WINDOW:
+                if (lo is None or v >= lo) and (hi is None or v <= hi) and self.branch(x.t == v):
+                    return v
+            raise _AbortBound()
         for v in range(lo, hi):
             if self.branch(x.t == v):
                 return v
@@ -571,7 +589,7 @@ def explore(
     """
     global CTX
     t0 = time.time()
-    st = dict(paths=0, decisions=0, queries=0, solver_s=0.0, aborted=0, obligations=0, discharged=0)
+    st = dict(paths=0, decisions=0, queries=0, solver_s=0.0, aborted=0, obligations=0, discharged=0, bound_aborts=0)
     cex: List[Dict[str, Any]] = []
     kinds_seen = set()
     obs_sample = None
@@ -588,6 +606,9 @@ def explore(
         aborted = False
         try:
             res = fn(ctx)
+        except _AbortBound:
+            aborted = True
+            st["bound_aborts"] += 1
         except _Abort:
             aborted = True
         except SymxError:
@@ -649,6 +670,8 @@ def explore(
     out["cex"] = cex
     out["obs_sample"] = obs_sample
     out["notes"] = notes_total
+    if status == "holds" and st["bound_aborts"]:
+        status = "incomplete"  # part of the value space was cut by the concretisation window
     if cex:
         out["status"] = "cex"
         out["exhaustive"] = status == "holds"
